@@ -668,7 +668,7 @@ func checkC07Entries(c *Check) {
 	id := 0
 	perClass := 4
 	if thorough {
-		perClass = 1000
+		perClass = 40
 	}
 	for _, ec := range cases {
 		switch ec.Op {
@@ -689,8 +689,11 @@ func checkC07Entries(c *Check) {
 				if ec.Input == "for-template" && structLike {
 					// every member
 				} else if ec.With != "nil" && ec.With != "struct" {
-					if slowClass[ec.Input] && !thorough {
-						limit = 1
+					if slowClass[ec.Input] {
+						limit = 1 // the expensive inputs go through every template once (every entry point in full with nil and struct)
+						if thorough {
+							limit = 2
+						}
 					} else if limit > perClass {
 						limit = perClass
 					}
@@ -702,7 +705,7 @@ func checkC07Entries(c *Check) {
 			}
 			for k := 0; k < limit; k++ {
 				d := members[(off+k)%len(members)]
-				if slowClass[ec.Input] && len(d) > 2000000 && !(ec.With == "nil" || ec.With == "rules" || ec.With == "bare") && !thorough {
+				if slowClass[ec.Input] && len(d) > 900000 && !(ec.With == "nil" || ec.With == "rules" || ec.With == "bare") {
 					continue
 				}
 				id++
